@@ -24,6 +24,7 @@ import (
 	"strconv"
 	"strings"
 	"sync/atomic"
+	"time"
 
 	bolterrors "github.com/nspcc-dev/bbolt/errors"
 	"github.com/nspcc-dev/neofs-node/pkg/local_object_storage/blobstor/common"
@@ -58,9 +59,43 @@ var modesFaultPoints = map[string]string{
 	"blob": "shard.setmode.storage", "wc": "writecache.setmode",
 }
 
+// The write-cache's REAL flush scheduler runs with a short tick (verifhook.Duration) and is parked at its per-tick
+// fault point, except during a `settle` op. The hook points in the scheduler (unchanged code) tell the harness how
+// many schedulers are alive (start / exit) and how many ticks have been taken.
+var (
+	modesSchedAlive atomic.Int64 // flush schedulers started and not yet returned
+	modesTicks      atomic.Int64 // scheduler ticks seen (parked or not)
+	modesUnparked   atomic.Bool  // `settle` in progress: ticks do their work
+)
+
+const modesTick = 10 * time.Millisecond
+
+func modesDurationFn(name string) time.Duration {
+	if name == "writecache.flush.tick" {
+		return modesTick
+	}
+	return 0
+}
+
+func modesPointFn(name string) {
+	if name == "writecache.flush.scheduler.exit" {
+		modesSchedAlive.Add(-1)
+	}
+}
+
 func modesFaultFn(name string) error {
-	if name == "writecache.flush.scheduler" {
-		return errModesInjected // the background scheduler is parked; `flushtick` runs the workers explicitly
+	switch name {
+	case "wc.flush.scheduler": // a flush scheduler starts (runFlushLoop)
+		modesSchedAlive.Add(1)
+		return nil
+	case "writecache.flush.scheduler":
+		modesTicks.Add(1)
+		if modesUnparked.Load() {
+			return nil
+		}
+		return errModesInjected // the background scheduler is parked; `flushtick` runs the workers explicitly, `settle` lets it run
+	case "writecache.flush.errpause":
+		return errModesInjected // no 10 s back-off after a failed flush: the next tick is tried at once
 	}
 	if cur, _ := modesFault.Load().(string); cur != "" && cur == name {
 		return errModesInjected
@@ -205,7 +240,10 @@ func showAddrList(as []oid.Address) string {
 
 func modesExec(c *runCtx, ops []string) {
 	verifhook.SetFault(modesFaultFn)
+	verifhook.SetPoint(modesPointFn)
+	verifhook.SetDuration(modesDurationFn)
 	modesFault.Store("")
+	modesUnparked.Store(false)
 	dir := scratchDir("modes")
 	defer os.RemoveAll(dir)
 
@@ -217,6 +255,10 @@ func modesExec(c *runCtx, ops []string) {
 		last  string // digest after the previous operation
 		// the switch that failed last, while no later switch has succeeded ("" = reported and actual modes agree)
 		failedSwitch string
+		// the components have been closed and opened again without Init and no switch has succeeded since
+		reopened bool
+		// that cycle happened in a mode without metabase: Shard.Open opened a bolt handle the mode does not use
+		handleLeft bool
 	)
 	closeShard := func() {
 		if sh != nil {
@@ -243,6 +285,35 @@ func modesExec(c *runCtx, ops []string) {
 		start(mode.ReadWrite)
 		last = ""
 		failedSwitch = ""
+		reopened, handleLeft = false, false
+	}
+	// settle lets the real background activity of the shard run: the write-cache flush scheduler is unparked until it
+	// has taken two ticks (one full pass over the cache is then complete), parked again, and the flush workers are
+	// waited for. When no scheduler is alive (or none shows up in time) nothing can be waited for: the op takes a
+	// few tick periods and returns.
+	settle := func() {
+		if !hasWC || sh.VerifWriteCache() == nil {
+			time.Sleep(2 * modesTick)
+			return
+		}
+		waitTicks := func(from, n int64, limit time.Duration) {
+			deadline := time.Now().Add(limit)
+			for modesTicks.Load() < from+n && time.Now().Before(deadline) {
+				time.Sleep(time.Millisecond)
+			}
+		}
+		limit := 30 * modesTick
+		if modesSchedAlive.Load() > 0 {
+			limit = 30 * time.Second
+		}
+		t0 := modesTicks.Load()
+		modesUnparked.Store(true)
+		waitTicks(t0, 2, limit)
+		modesUnparked.Store(false)
+		if t1 := modesTicks.Load(); t1 > t0 {
+			waitTicks(t1, 1, 30*time.Second) // the pass in progress ends before the next (parked) tick
+		}
+		writecache.VerifWaitFlushed(sh.VerifWriteCache())
 	}
 	shardDir := func() string { return sub }
 
@@ -301,6 +372,9 @@ func modesExec(c *runCtx, ops []string) {
 		if strings.HasPrefix(assertion, "after-failed-switch:") && c.prop != "C43" {
 			return // the window after a failed switch is C43's subject (C14 quantifies over fault-free histories)
 		}
+		if strings.HasPrefix(assertion, "after-reopen:") && c.prop != "C14" {
+			return // stored data over the close/open cycle is C14's subject
+		}
 		if !ok {
 			if c.hist["oracle_fail:"+assertion] >= 2 { // two witnesses per assertion are recorded (each is shrunk separately)
 				c.count("oracle_fail:" + assertion)
@@ -327,7 +401,12 @@ func modesExec(c *runCtx, ops []string) {
 	compsAgree := func() bool {
 		m := sh.GetMode()
 		mm, mopen := sh.VerifMetabaseMode()
-		if mm != m || mopen == m.NoMetabase() || bs.VerifReadOnly() != m.ReadOnly() {
+		if mm != m || bs.VerifReadOnly() != m.ReadOnly() {
+			return false
+		}
+		if mopen == m.NoMetabase() && !(mopen && handleLeft) {
+			// (an open handle in a mode without metabase is what Shard.Open leaves behind after a close/open cycle in
+			// such a mode: no request can see it, the metabase refuses on its mode; it is closed by the next switch)
 			return false
 		}
 		if hasWC {
@@ -355,6 +434,8 @@ func modesExec(c *runCtx, ops []string) {
 		}
 		before := sh.GetMode()
 		storedBefore := storedSet()
+		mmBefore, _ := sh.VerifMetabaseMode()
+		reopenedBefore := reopened
 		var (
 			err   error
 			extra string
@@ -438,7 +519,15 @@ func modesExec(c *runCtx, ops []string) {
 				err = sh.FlushWriteCache(false)
 			case "flushtick":
 				if hasWC {
-					writecache.VerifFlushTick(sh.VerifWriteCache())
+					// a batch nobody takes within 30 ticks: no flush worker is running (closed and opened again without Init)
+					writecache.VerifFlushTickWithin(sh.VerifWriteCache(), 30*modesTick)
+				}
+			case "settle":
+				settle()
+			case "reopen": // Shard.Close, Shard.Open and NO Init: StorageEngine.BlockExecution / ResumeExecution
+				err = sh.Close()
+				if oerr := sh.Open(); err == nil {
+					err = oerr
 				}
 			case "gc":
 				sh.VerifRemoveGarbage()
@@ -465,6 +554,7 @@ func modesExec(c *runCtx, ops []string) {
 				}
 				closeShard()
 				start(mode.Mode(m))
+				reopened, handleLeft = false, false
 			case "setmode":
 				m, perr := strconv.ParseUint(o.kv["m"], 10, 32)
 				f, okf := o.kv["fail"]
@@ -496,6 +586,12 @@ func modesExec(c *runCtx, ops []string) {
 		stored := storedSet()
 		dumped := dump()
 		c.emit(line, "=> "+res+extra+" "+dumped) // recorded first: a failing oracle reports the sequence INCLUDING this op
+		if mmAfter, _ := sh.VerifMetabaseMode(); o.name == "reopen" {
+			reopened = true
+			handleLeft = mmAfter.NoMetabase()
+		} else if mmAfter != mmBefore {
+			handleLeft = false
+		}
 
 		// ---- the properties' own oracles
 		// the properties name the modes; the oracles do not go through the predicates under test
@@ -517,8 +613,23 @@ func modesExec(c *runCtx, ops []string) {
 				}
 			}
 			if !leaves {
-				oracle(pfx+"read-only-mode-freezes-stored-data", last == now,
-					fmt.Sprintf("files under the shard directory changed during %q in mode %s: %s%s", line, before, modesDigestDiff(last, now), sfx))
+				toNoMeta := false
+				if o.name == "setmode" {
+					m, _ := strconv.ParseUint(o.kv["m"], 10, 32)
+					toNoMeta = m == 3 || m == 4294967295
+				}
+				if reopenedBefore && toNoMeta && failedSwitch == "" {
+					// known finding C14-reopen-switch-flush: the close/open cycle left the blobstor writable and the
+					// write-cache flushes before it enters a mode without metabase
+					oracle("after-reopen:switch-to-mode-without-metabase-freezes-stored-data", last == now,
+						fmt.Sprintf("files under the shard directory changed during %q in mode %s: %s [after the close/open cycle without Init]", line, before, modesDigestDiff(last, now)))
+				} else {
+					if reopenedBefore {
+						sfx += " [after a close/open cycle without Init]"
+					}
+					oracle(pfx+"read-only-mode-freezes-stored-data", last == now,
+						fmt.Sprintf("files under the shard directory changed during %q in mode %s: %s%s", line, before, modesDigestDiff(last, now), sfx))
+				}
 			}
 			switch o.name {
 			case "put", "delete", "mark", "inhumecnr", "delcnr", "revive", "restore":
@@ -566,6 +677,7 @@ func modesExec(c *runCtx, ops []string) {
 			oracle("mode-switch-keeps-stored-objects", lost == "", fmt.Sprintf("%q lost%s", line, lost))
 			if res == "ok" {
 				failedSwitch = ""
+				reopened = false
 				want := o.kv["m"]
 				oracle("successful-switch-reports-and-reaches-target", fmt.Sprint(uint32(sh.GetMode())) == want && compsAgree(),
 					fmt.Sprintf("%q succeeded; reported %s, components: %s", line, sh.GetMode(), dumped))
@@ -653,8 +765,10 @@ func (w *modesWorld) op() string {
 		return fmt.Sprintf("modes restore c=%d ids=%s", cn, w.ids())
 	case k < 54:
 		return "modes flush"
-	case k < 62:
+	case k < 59:
 		return "modes flushtick"
+	case k < 62:
+		return "modes settle"
 	case k < 72:
 		return "modes gc"
 	case k < 78:
@@ -694,7 +808,18 @@ func modesGen(c *runCtx, run func([]string)) {
 				ops = append(ops, w.op())
 			}
 		}
+		if !faults && r.IntN(10) == 0 { // the maintenance cycle in read-write mode: nothing flushes until a restart
+			ops = append(ops, "modes reopen", w.put(1+r.IntN(modesNC), 1+r.IntN(modesNO)), "modes settle", "modes flushtick")
+		}
+		// a close/open cycle without Init has happened and no switch since: a switch to a mode without metabase would
+		// now flush the cache into the writable blobstor (known finding C14-reopen-switch-flush); only every 12th
+		// history keeps such switches, the others go to ReadOnly first
+		reopened, triggers := false, i%12 == 5
 		setmode := func(m uint32) string {
+			if reopened && !triggers && (m == 3 || m == 4294967295) {
+				m = 1
+			}
+			reopened = false
 			s := fmt.Sprintf("modes setmode m=%d", m)
 			if faults && r.IntN(3) == 0 {
 				s += " fail=" + []string{"metaEntry", "metaOpen", "blob", "wc"}[r.IntN(4)]
@@ -711,10 +836,21 @@ func modesGen(c *runCtx, run func([]string)) {
 			}
 			if r.IntN(5) == 0 {
 				ops = append(ops, fmt.Sprintf("modes restart m=%d", m)) // the period starts by configuration
+				reopened = false
 			} else {
 				ops = append(ops, setmode(m))
 			}
+			// C14: in every second period the engine's maintenance cycle (close, open again without Init) happens at
+			// some point, followed by a tick of the real flush scheduler
+			cycleAt := -1
+			if !faults && r.IntN(2) == 0 {
+				cycleAt = r.IntN(4)
+			}
 			for j, n := 0, 3+r.IntN(10); j < n; j++ {
+				if j == cycleAt {
+					ops = append(ops, "modes reopen", "modes settle")
+					reopened = true
+				}
 				if r.IntN(8) == 0 {
 					if faults {
 						ops = append(ops, setmode(modesAll[r.IntN(len(modesAll))]))
